@@ -134,6 +134,14 @@ def explore(ctx):
                 ctx.count('gen_error:' + type(e).__name__)
                 continue
             made += 1
+            if made % 5 == 0:
+                # a JSON dump that fails part-way (a shared sub-object) must leave nothing behind
+                shared = [1]
+                for f_ in (lambda: dumps_json([shared, [shared]]), lambda: dump_json([shared, [shared]], io.StringIO())):
+                    try:
+                        f_()
+                    except Exception:  # noqa
+                        ctx.count('aborted_json_dump')
             indent = rng.choice([None, None, 0, 2, 4, 7])
             ea = rng.choice([True, False])
             variants = []
